@@ -168,6 +168,7 @@ func (m *machine) beginPath(prefix []dec) {
 	m.userState = map[string]value{}
 	m.condGen = map[*value]int{}
 	m.lastClock = nil
+	m.deferReset()
 	m.selectNondet = false
 	m.selectPrio = nil
 	mg := &gor{id: 0, wake: make(chan bool, 1), main: true, started: true, name: "main"}
@@ -221,14 +222,22 @@ func (m *machine) addPC(c *Term) {
 }
 
 func (m *machine) evalUnderModel(c *Term) (uint64, bool) {
-	if !m.modelOK || len(m.ts.ufs) > 0 {
+	if !m.modelOK {
 		return 0, false
 	}
-	return m.ts.Eval(c, m.model, map[int]uint64{}), true
+	m.ts.evalFail = false
+	v := m.ts.Eval(c, m.model, map[int]uint64{})
+	if m.ts.evalFail {
+		return 0, false
+	}
+	return v, true
 }
 
 func (m *machine) refreshModel() {
 	vars := m.ts.vars
+	if len(m.ts.ufApps) > 0 {
+		vars = append(append([]*Term{}, vars...), m.sol.definedOf(m.ts.ufApps)...)
+	}
 	mod, err := m.sol.Model(m.ts, vars)
 	if err != nil {
 		m.modelOK = false
@@ -253,9 +262,14 @@ func (m *machine) decide(c *Term, why string) bool {
 	if c.Op == OpConst {
 		return c.C == 1
 	}
+	if v, ok := m.decidedLookup(c); ok { // intr_skl.go: this very term was decided earlier on the path
+		m.pendHas = false
+		return v
+	}
 	idx := len(m.decisions)
 	if idx < len(m.prefix) {
 		ch := m.prefix[idx].C
+		m.decidedRecord(c, ch == 1)
 		m.decisions = append(m.decisions, m.prefix[idx])
 		m.pendHas = false
 		if ch == 1 {
@@ -330,6 +344,7 @@ func (m *machine) decide(c *Term, why string) bool {
 	if v, ok := m.evalUnderModel(c); !ok || (v == 1) != takeTrue {
 		m.modelOK = false
 	}
+	m.decidedRecord(c, takeTrue)
 	return takeTrue
 }
 
